@@ -57,11 +57,30 @@ c.modifies("contents(_dispatch_table)")
 
 c = M.contract("_reduce_method", props=["C15"])
 c.param("m", T.Obj)
-c.ensures("builtin/bound-method-reduces-to-getattr-on-its-object",
-          "implies(attr(m, '__self__') is not None, result[0] is getattr and result[1][0] is attr(m, '__self__') and "
+# from the property ("bound methods, class methods ... round-trip to equal behaviour"): the method is rebuilt from the very function and the very object it binds;
+# a look-up of the function's *name* on the object finds another function when the method was reached through super(), through an alias whose name was
+# re-defined, or is name-mangled (my first clause had been copied from the code: getattr(self, name))
+c.ensures("builtin/bound-method-rebuilt-from-its-own-function-and-object-not-looked-up-by-name",
+          "implies(attr(m, '__self__') is not None and not isinstance(attr(m, '__self__'), type), result[0] is _rebuild_method and "
+          "result[1][0] is attr(m, '__func__') and result[1][1] is attr(m, '__self__'))")
+# a class method is still looked up by name on its class (the plain function behind it cannot be pickled by reference by the pickle back-end); equal behaviour
+# there rests on the class not shadowing the name (recorded under not_covered)
+c.ensures("builtin/class-method-reduces-to-getattr-on-its-class",
+          "implies(attr(m, '__self__') is not None and isinstance(attr(m, '__self__'), type), result[0] is getattr and result[1][0] is attr(m, '__self__') and "
           "result[1][1] is attr(attr(m, '__func__'), '__name__'))")
+c.replay_for("builtin/bound-method-rebuilt-from-its-own-function-and-object-not-looked-up-by-name", "bound_method_round_trip")
 c.ensures("builtin/unbound-reduces-to-getattr-on-its-class",
           "implies(attr(m, '__self__') is None, result[0] is getattr and result[1][0] is attr(m, '__class__') and result[1][1] is attr(attr(m, '__func__'), '__name__'))")
+c.raises_only("builtin/no-exception")
+c.modifies()
+
+c = S.ext("types.MethodType", cite="types.MethodType(function, instance): the bound method object (calling it calls function(instance, ...))")
+c.param("function", T.Obj).param("instance", T.Obj).returns(T.Obj).event("new_method", "function", "instance", "result").modifies()
+c = M.contract("_rebuild_method", props=["C15"])
+c.param("func", T.Obj).param("obj", T.Obj)
+c.returns(T.Obj)
+c.ensures("builtin/rebuilds-the-method-binding-that-function-to-that-object",
+          "log_count('new_method') == 1 and log_arg('new_method', 0, 0) is func and log_arg('new_method', 0, 1) is obj and result is log_arg('new_method', 0, 2)")
 c.raises_only("builtin/no-exception")
 c.modifies()
 
